@@ -42,8 +42,10 @@ var c10Tree = map[string]string{
 	"repo/.github/workflows/s1a.yml": "on: push\njobs:\n  a:\n" + c10Job + "      - uses: ./.github/actions/ok\n        with:\n          nme: x\n      - uses: ./.github/actions/ok\n        id: s\n        with:\n          name: x\n      - run: echo ${{ steps.s.outputs.nope }} ${{ steps.s.outputs.out }}\n",
 	"repo/.github/workflows/s1b.yml": "on: push\njobs:\n  b:\n" + c10Job + "      - uses: ./.github/actions/ok\n        with:\n          name: y\n          extra: z\n",
 	// S2: caller + callee reusable workflow
-	"repo/.github/workflows/s2callee.yml":  "on:\n  workflow_call:\n    inputs:\n      Num:\n        type: number\n        required: true\n      str:\n        type: string\n        default: d\n        required: true\n      FLAG:\n        type: boolean\n    secrets:\n      Tok:\n        required: true\n    outputs:\n      Res:\n        value: x\njobs:\n  j:\n" + c10Job + "      - run: echo ${{ inputs.num }} ${{ inputs.nope }}\n",
-	"repo/.github/workflows/s2caller.yml":  "on: push\njobs:\n  c:\n    uses: ./.github/workflows/s2callee.yml\n    with:\n      num: abc\n      unknown: 1\n    secrets:\n      other: x\n  d:\n    needs: c\n" + c10Job + "      - run: echo ${{ needs.c.outputs.res }} ${{ needs.c.outputs.nope }}\n",
+	"repo/.github/workflows/s2callee.yml": "on:\n  workflow_call:\n    inputs:\n      Num:\n        type: number\n        required: true\n      str:\n        type: string\n        default: d\n        required: true\n      FLAG:\n        type: boolean\n    secrets:\n      Tok:\n        required: true\n    outputs:\n      Res:\n        value: x\njobs:\n  j:\n" + c10Job + "      - run: echo ${{ inputs.num }} ${{ inputs.nope }}\n",
+	"repo/.github/workflows/s2caller.yml": "on: push\njobs:\n  c:\n    uses: ./.github/workflows/s2callee.yml\n    with:\n      num: abc\n      unknown: 1\n    secrets:\n      other: x\n  d:\n    needs: c\n" + c10Job + "      - run: echo ${{ needs.c.outputs.res }} ${{ needs.c.outputs.nope }}\n",
+	// an ill-formed spec whose cleaned path is the well-formed callee's
+	"repo/.github/workflows/s2bad.yml":     "on: push\njobs:\n  x:\n    uses: ./x@y/../.github/workflows/s2callee.yml\n  y:\n    uses: ./.github/workflows/../workflows/s2callee.yml\n    with:\n      num: 1\n    secrets: inherit\n",
 	"repo/.github/workflows/s2caller2.yml": "on: push\njobs:\n  c:\n    uses: ./.github/workflows/s2callee.yml\n    with:\n      num: 1\n      flag: xyz\n    secrets: inherit\n",
 	// S3: runner labels / config variables depend on the repository's configuration
 	"repo/.github/workflows/s3a.yml": "on: push\njobs:\n  a:\n    runs-on: foo-runner\n    steps:\n      - run: echo ${{ vars.ZZZ_VAR }} ${{ vars.NOPE }}\n",
@@ -93,6 +95,7 @@ type c10Scenario struct {
 var c10Scenarios = []c10Scenario{
 	{Name: "S1-shared-local-action", Files: []string{"repo/.github/workflows/s1a.yml", "repo/.github/workflows/s1b.yml", "repo/.github/workflows/s1c.yml"}, MinFiles: 2},
 	{Name: "S2-caller-callee", Files: []string{"repo/.github/workflows/s2caller.yml", "repo/.github/workflows/s2callee.yml", "repo/.github/workflows/s2caller2.yml"}, MinFiles: 2},
+	{Name: "S2b-ill-formed-spec-aliasing-the-callee", Files: []string{"repo/.github/workflows/s2bad.yml", "repo/.github/workflows/s2caller.yml"}, MinFiles: 2},
 	{Name: "S3-sibling-repositories", Files: []string{"repo/.github/workflows/s3a.yml", "repo2/.github/workflows/s3c.yml", "repo/sub/.github/workflows/s3d.yml"}, MinFiles: 2},
 	{Name: "S3b-nested-repository-git-file", Files: []string{"repo/.github/workflows/s3a.yml", "repo/wt/.github/workflows/s3e.yml", "repo/.github/workflows/s1b.yml"}, MinFiles: 2},
 	{Name: "S4-shared-slices", Files: []string{"repo/.github/workflows/s4a.yml", "repo/.github/workflows/s4b.yml"}, MinFiles: 1},
@@ -196,7 +199,7 @@ func TestVerifC10(t *testing.T) {
 	}
 	r.Bounds["preemptions"] = maxPreempt
 	r.Bounds["semaphore_sizes"] = []int{1, 2}
-	r.Extra["rule"] = "14 scenarios (shared local action, caller+callee, sibling/nested repositories (.git directory and .git file), shared-slice messages, broken callees, files that stop early, files outside any repository (also in a directory above the repositories), -format, -config-file; plus, free-running, every workflow of 4 repositories through LintRepository / LintDir / LintFiles with and without an explicit project) x every subset and argument order of their files x semaphore size {1,2} x all interleavings of the real LintFiles up to the preemption bound; oracle: per-file diagnostics = LintFile alone, once-per-run defects exactly once, fingerprints of shared tables and configs unchanged at every scheduling point; class = (scenario, file order, per-file diagnostic counts); non-trivial = more than one file with diagnostics"
+	r.Extra["rule"] = "15 scenarios (shared local action, caller+callee, sibling/nested repositories (.git directory and .git file), shared-slice messages, broken callees, files that stop early, files outside any repository (also in a directory above the repositories), -format, -config-file; plus, free-running, every workflow of 4 repositories through LintRepository / LintDir / LintFiles with and without an explicit project) x every subset and argument order of their files x semaphore size {1,2} x all interleavings of the real LintFiles up to the preemption bound; oracle: per-file diagnostics = LintFile alone, once-per-run defects exactly once, fingerprints of shared tables and configs unchanged at every scheduling point; class = (scenario, file order, per-file diagnostic counts); non-trivial = more than one file with diagnostics"
 	r.Extra["assumptions"] = []string{"data races are outside a cooperative scheduler's reach (supported by a separate free-running -race pass, not decided here)", "GOMAXPROCS is subsumed by interleavings under data-race freedom"}
 	root := vTempDir(t, "c10-")
 	vWriteFiles(t, root, c10Tree)
